@@ -43,6 +43,21 @@ pub fn run_graph(spec: &GraphSpec, plan: &FaultPlan, chunk: Chunking, budget: u6
     })
 }
 
+/// Did the last lookup of the history really find nothing (every candidate a
+/// miss after the last hit)?  A "can't find" error after a lookup that DID
+/// find its file is not a resolution failure but a mislabelled error.
+pub fn resolution_failed(history: &[Event]) -> bool {
+    let mut misses_after_last_hit = 0;
+    for e in history {
+        match e {
+            Event::Find { res: FindRes::Hit { .. }, .. } => misses_after_last_hit = 0,
+            Event::Find { res: FindRes::Miss, .. } => misses_after_last_hit += 1,
+            _ => {}
+        }
+    }
+    misses_after_last_hit > 0
+}
+
 fn kinds_str(ks: &[LoadKind]) -> String {
     ks.iter().map(|k| k.letter()).collect()
 }
@@ -131,7 +146,8 @@ pub fn judge(case: &Case, stats: &mut Stats) -> (Judgement, Option<Outcome>) {
         (Res::Err { text, class }, true) => {
             // resolution failures are C04's business; a parse error means the generated
             // syntax is not understood by this rsass, which says nothing about loading
-            if text.contains("find stylesheet") || text.contains("not found") || *class == ErrClass::Parse {
+            let not_found_text = text.contains("find stylesheet") || text.contains("not found");
+            if (not_found_text && resolution_failed(&o.history)) || *class == ErrClass::Parse {
                 stats.inc("other_error");
                 Judgement::Unjudged("other_error")
             } else {
